@@ -148,11 +148,15 @@ def _rows(it, defs, fn):
                     continue
                 # an indexable of exactly n items: x.to_bytes(n, ..)
                 src = defs.get(a.id) if isinstance(a, ast.Name) else None
-                if not (isinstance(src, ast.Call) and isinstance(
-                        src.func, ast.Attribute) and src.func.attr ==
-                        "to_bytes" and src.args and isinstance(
-                            src.args[0], ast.Constant) and
-                        src.args[0].value == n):
+                ln = None
+                if isinstance(src, ast.Call) and isinstance(
+                        src.func, ast.Attribute) and src.func.attr == \
+                        "to_bytes":
+                    ln = src.args[0] if src.args else None
+                    for k in src.keywords:
+                        if k.arg == "length":
+                            ln = k.value
+                if not (isinstance(ln, ast.Constant) and ln.value == n):
                     return None
                 cols[i] = [ast.Subscript(ast.Name(a.id, ast.Load()),
                                          ast.Constant(k), ast.Load())
